@@ -445,7 +445,7 @@ pub fn check(case: &Case, info: &mut CaseInfo) -> Result<(), Fail> {
 pub fn run(ctx: &Ctx, rep: &mut Report) {
     let (n, phases) = match ctx.tier {
         Tier::Quick => (240, 4),
-        Tier::Thorough => (1_600, 7),
+        Tier::Thorough => (3_200, 7),
     };
     run_prop(ctx, rep, "queries", case_strategy(phases), n, 60, check);
 }
